@@ -71,6 +71,23 @@ def main() -> int:
     except ModuleNotFoundError:
         print(f"no check for {a.pid}")
         return 2
+    # Wall-clock guard.  Most harnesses call the implementation in-process; a call that never returns (a third-party
+    # loop reached by a generated input) must not leave the check hanging.  SIGALRM raises a BaseException in the main
+    # thread (so that `except Exception` around implementation calls does not swallow it); the frames of /repo on the
+    # stack at that moment name the call that did not return.
+    import signal
+
+    class CheckTimeLimit(BaseException):
+        pass
+    limit = int(os.environ.get("VERIF_TIME_LIMIT", "0") or 0) or (1500 if tier == "quick" else 6 * 3600)
+
+    def on_alarm(signum, frame):
+        raise CheckTimeLimit()
+    try:
+        signal.signal(signal.SIGALRM, on_alarm)
+        signal.alarm(limit)
+    except (ValueError, OSError):
+        pass
     try:
         if a.replay:
             rp = json.load(open(a.replay))
@@ -80,10 +97,22 @@ def main() -> int:
                 mod.run(ctx)
         else:
             mod.run(ctx)
+    except CheckTimeLimit:
+        tb = traceback.format_exc()
+        repo_frames = [ln.strip() for ln in tb.splitlines() if str(common.REPO) in ln or "site-packages" in ln]
+        print(tb[-3000:])
+        ctx.finding("check-time-limit", f"the check did not finish within {limit} s; the implementation call on the stack when it "
+                    f"was stopped: {' <- '.join(repo_frames[-4:])[:600]}", {"traceback": tb[-6000:], "limit_s": limit},
+                    found_input=False)
     except Exception:
         tb = traceback.format_exc()
         print(tb)
         ctx.obligation("check-harness-completed", False, tb[-1500:])
+    finally:
+        try:
+            signal.alarm(0)
+        except (ValueError, OSError):
+            pass
     return ctx.finish()
 
 
